@@ -466,3 +466,87 @@ func TestC06_FoldEnum(t *testing.T) {
 	}
 	t.Logf("fold enumeration cases: %d", n)
 }
+
+// TestC06_InPlace: the fold ranges over the collection as it is NOW. A quantifier is
+// evaluated on a document, the caller replaces a key of the iterated map (or an element of
+// the iterated list) in place - same object, same size - and the quantifier is evaluated
+// again, by the same evaluator and by a new one; every result must be the reference's for
+// the document as it stands.
+func TestC06_InPlace(t *testing.T) {
+	r := rec(t, "C06", c06Rule)
+	strT := uni.Scalar(uni.KString)
+	rapid.Check(t, func(t *rapid.T) {
+		n := rapid.IntRange(1, 5).Draw(t, "entries")
+		m := &uni.Node{T: uni.MapOf(strT, uni.Iface())}
+		for i := 0; i < n; i++ {
+			m.Keys = append(m.Keys, uni.Str("k"+strconv.Itoa(i)))
+			m.Elems = append(m.Elems, uni.InIface(uni.Str([]string{"a", "b", "db"}[rapid.IntRange(0, 2).Draw(t, "val")])))
+		}
+		root := &uni.Node{T: uni.MapOf(strT, uni.Iface()), Keys: []*uni.Node{uni.Str("m"), uni.Str("other")},
+			Elems: []*uni.Node{uni.InIface(m), uni.InIface(&uni.Node{T: uni.MapOf(strT, uni.Iface()), Keys: []*uni.Node{uni.Str("z")}, Elems: []*uni.Node{uni.InIface(uni.Str("a"))}})}}
+		var body bx.Expr
+		mode := bx.BindMode(rapid.IntRange(0, 3).Draw(t, "mode"))
+		q := &bx.Quant{All: rapid.Bool().Draw(t, "all"), Sel: bx.Sel{Parts: []string{"m"}}, Mode: mode}
+		keyLit := "k" + strconv.Itoa(rapid.IntRange(0, n).Draw(t, "keyLit")) + []string{"", "_r"}[rapid.IntRange(0, 1).Draw(t, "renamed")]
+		switch mode {
+		case bx.BindDefault:
+			q.Value = "k"
+			body = &bx.Match{Sel: bx.Sel{Parts: []string{"k"}}, Op: bx.OpEq, Lit: keyLit}
+		case bx.BindIndex:
+			q.Index = "k"
+			body = &bx.Match{Sel: bx.Sel{Parts: []string{"k"}}, Op: bx.OpNe, Lit: keyLit}
+		case bx.BindValue:
+			q.Value = "v"
+			body = &bx.Match{Sel: bx.Sel{Parts: []string{"v"}}, Op: bx.OpEq, Lit: "db"}
+		default:
+			q.Index, q.Value = "k", "v"
+			body = &bx.Or{L: &bx.Match{Sel: bx.Sel{Parts: []string{"k"}}, Op: bx.OpEq, Lit: keyLit}, R: &bx.Match{Sel: bx.Sel{Parts: []string{"v"}}, Op: bx.OpEq, Lit: "db"}}
+		}
+		q.Body = body
+		rend := bx.NewRenderer(bx.Zero{})
+		rend.NoLayout = true
+		text, _ := rend.Render(q)
+		ev, err := bexpr.CreateEvaluator(text)
+		if err != nil {
+			t.Fatalf("harness: %q rejected: %v", text, err)
+		}
+		d := root.Interface()
+		model := root
+		steps := rapid.IntRange(1, 4).Draw(t, "steps")
+		for s := 0; s <= steps; s++ {
+			c := newEvalCase(text, q, model, Opts{})
+			c.Extra = map[string]any{"step": s}
+			want := Opts{}.Env(model).Eval(q)
+			res, rerr, pan := safeEvaluate(ev, d)
+			if pan != nil {
+				violation(t, "C06", "TestC06_InPlace", c, "panic: %v", pan)
+			}
+			if got := ref.Of(res, rerr); !want.Has(got) {
+				violation(t, "C06", "TestC06_InPlace", c, "after %d in-place key replacement(s) %s gives %s on the SAME map object, the document now denotes %s\n document now: %s", s, strconv.Quote(text), got, want, model)
+			}
+			fresh, _ := bexpr.CreateEvaluator(text)
+			if fres, ferr, _ := safeEvaluate(fresh, d); !want.Has(ref.Of(fres, ferr)) {
+				violation(t, "C06", "TestC06_InPlace", c, "a new evaluator after %d in-place key replacement(s): %s gives %s, the document now denotes %s", s, strconv.Quote(text), ref.Of(fres, ferr), want)
+			}
+			if s == steps {
+				break
+			}
+			// replace one key of m in place (same size), in the Go map and in the model
+			model = model.Clone()
+			mm := model.Elems[0].Dyn()
+			j := rapid.IntRange(0, len(mm.Keys)-1).Draw(t, "replaceKey")
+			oldKey, newKey := mm.Keys[j].S, mm.Keys[j].S+"_r"
+			gm := d.(map[string]interface{})["m"].(map[string]interface{})
+			gm[newKey] = gm[oldKey]
+			delete(gm, oldKey)
+			mm.Keys[j].S = newKey
+			if rapid.Bool().Draw(t, "alsoOther") {
+				// an unrelated quantifier in between
+				if oe, err := bexpr.CreateEvaluator("any other as x { x == \"a\" }"); err == nil {
+					oe.Evaluate(d)
+				}
+			}
+		}
+		r.Case(text+"\x00"+root.String()+strconv.Itoa(steps), n >= 2, map[string]string{"expr": text, "document": root.String(), "replacements": strconv.Itoa(steps)}, fmt.Sprintf("mode:%d", mode))
+	})
+}
